@@ -24,6 +24,7 @@ pub const RANKS: [Rank; 13] = [
     Rank::Trey,
     Rank::Deuce,
 ];
+pub const RANK_CH: [char; 13] = ['A', 'K', 'Q', 'J', 'T', '9', '8', '7', '6', '5', '4', '3', '2'];
 pub const SUITS: [Suit; 4] = [Suit::Spade, Suit::Heart, Suit::Diamond, Suit::Club];
 
 pub fn card(id: usize) -> Card {
